@@ -314,13 +314,15 @@ Definition exec_script (sc : list acall) (s : st) : st :=
   fold_left (fun s a => api_nested a s) sc s.
 
 (* result of a handler as loop_read sees it: Some rc | None = exception *)
-Definition after_read (r : st * option Z) : st * option Z :=
+Definition after_read (id0 : Z) (r : st * option Z) : st * option Z :=
   match r with
   | (s, Some rc) =>
       if rc >? 0 then
+        (* id0: the socket loop_read started with.  If it is gone or replaced, a write made while handling
+           the packet already failed, closed it and reported through on_disconnect *)
         match sock s with
-        | None => (s, Some rc)      (* a write made while handling the packet already closed and reported *)
-        | Some _ => let (s', rc') := loop_rc_handle rc s in (s', Some rc')
+        | Some id => if id =? id0 then let (s', rc') := loop_rc_handle rc s in (s', Some rc') else (s, Some rc)
+        | None => (s, Some rc)
         end
       else (s, Some 0)
   | (s, None) => (s, None)
@@ -342,22 +344,22 @@ Definition handle_server_disconnect (rc : Z) (s : st) : st * option Z :=
 Definition loop_read (i : inp) (s : st) : st * option Z :=
   match sock s with
   | None => (s, Some E_NO_CONN)
-  | Some _ =>
+  | Some id0 =>
       match i with
       | INoData | IOther => (s, Some 0)
       | IPingresp => (set_ping false s, Some 0)
-      | IEof | IRecvError => after_read (s, Some E_CONN_LOST)
-      | IUnknown => after_read (s, Some E_PROTOCOL)
-      | IPingreq => let (s1, rc) := packet_queue KOther s in after_read (s1, Some rc)
+      | IEof | IRecvError => after_read id0 (s, Some E_CONN_LOST)
+      | IUnknown => after_read id0 (s, Some E_PROTOCOL)
+      | IPingreq => let (s1, rc) := packet_queue KOther s in after_read id0 (s1, Some rc)
       | IConnack rc =>
-          if (proto s =? 4) && (rc =? 1) then after_read (downgrade true s)
-          else after_read (handle_connack rc s)
+          if (proto s =? 4) && (rc =? 1) then after_read id0 (downgrade true s)
+          else after_read id0 (handle_connack rc s)
       | IConnackDowngrade ok =>
-          if proto s =? 4 then after_read (downgrade ok s)
-          else after_read (handle_connack 1 s)
+          if proto s =? 4 then after_read id0 (downgrade ok s)
+          else after_read id0 (handle_connack 1 s)
       | IServerDisconnect rc =>
           if proto s =? 5 then handle_server_disconnect rc s
-          else after_read (s, Some E_PROTOCOL)
+          else after_read id0 (s, Some E_PROTOCOL)
       end
   end.
 
